@@ -45,10 +45,11 @@ Record variants := {
   v_release : bool;     (* stop() releases the lock before joining *)
   v_chkrun : bool;      (* start() returns early when already running *)
   v_reset : bool;       (* stop() resets shutdown_requested at the end *)
-  v_trycovers : bool    (* thread creation lies inside the try whose except closes the bound socket *)
+  v_trycovers : bool;   (* thread creation lies inside the try whose except closes the bound socket *)
+  v_peek : bool         (* start() touches the listening socket in its 'already running' branch (getsockname) *)
 }.
 Definition cur : variants :=
-  {| v_join := true; v_close := true; v_release := true; v_chkrun := true; v_reset := true; v_trycovers := true |}.
+  {| v_join := true; v_close := true; v_release := true; v_chkrun := true; v_reset := true; v_trycovers := true; v_peek := false |}.
 
 Record glob := {
   running : bool; shreq : bool; lock : lk;
@@ -90,7 +91,10 @@ Section V.
         | Some StartT => if lock_free g then Some (set_lock g LCaller, St_chkT, true) else None
         end
     | St_chk =>
-        if v_chkrun v && running g then Some (set_lock g LFree, Idle, false)
+        if v_chkrun v && running g then
+          (* already running: return.  While a stop() is between "main thread joined, socket closed" and
+             "running := False" the socket is closed although running is still True: touching it raises *)
+          Some (set_lock (if v_peek v && negb (sock_open (sock g)) then set_err g else g) LFree, Idle, false)
         else Some (set_sock g SOpen, St_spawn, false)
     | St_chkF =>
         if v_chkrun v && running g then Some (set_lock g LFree, Idle, false)
